@@ -168,6 +168,7 @@ def clause2_siblings(ctx, P, cg):
 
 
 def clause3_commit(ctx, P, cg):
+    outset = Q.make_outset(ctx, P, cg)
     soc = P.fn("element.c:set_or_call")
     views = Q.path_views(ctx, P, soc)
     setup = soc.calls("setup_routing_information")
@@ -195,7 +196,7 @@ def clause3_commit(ctx, P, cg):
         frees = [i for k, i in v.insts() if _frees_request(P, soc, i) or
                  (i.op == "call" and i.callee and P.srcname_of(i.callee) == "cjet_free" and
                   Q.is_call_to(P.term(soc, i.a[0]), "alloc_routing_request"))]
-        rt = Q.ret_value_term(v)
+        rt = Q.ret_value_term(v, outset)
         is_err = rt is not None and rt != ("null",) and not Q.is_call_to(rt, ("create_success_response_from_request",))
         if registered:
             n_reg += 1
